@@ -601,6 +601,12 @@ class Interp:
         self.in_metadata = True
         self.loopvars = set()
         self.declared = set()
+        # a bool listed in an int/float loop, or a 0/1 in a bool loop: the
+        # statement leaves open whether that is "of the loop type".  By default
+        # out of domain; with convert_debatable the reference converts the value
+        # (what an accepting implementation has to bind) and flags the program,
+        # so a check can accept "refused" or "bound to the converted value".
+        self.convert_debatable = False
 
     def feat(self, f):
         self.prog.features.add(f)
@@ -1027,6 +1033,9 @@ class Interp:
                     vals.append(v)
                 elif v.k == "s" or (v.k == "f" and v.v != int(v.v)) or v.k == "c":
                     raise IllFormed("loop-type", name, var.line, var.col, repr(v))
+                elif v.k == "b" and self.convert_debatable:
+                    self.feat("loop-debatable")
+                    vals.append(V("i", int(v.v)))
                 else:
                     raise OOD("loop value of debatable type (int <- %s)" % v.k)
             elif want == "f":
@@ -1036,6 +1045,9 @@ class Interp:
                     vals.append(convert(v, "f"))
                 elif v.k in "sc":
                     raise IllFormed("loop-type", name, var.line, var.col, repr(v))
+                elif v.k == "b" and self.convert_debatable:
+                    self.feat("loop-debatable")
+                    vals.append(V("f", float(v.v)))
                 else:
                     raise OOD("loop value of debatable type (float <- %s)" % v.k)
             elif want == "b":
@@ -1043,6 +1055,9 @@ class Interp:
                     vals.append(v)
                 elif v.k == "s":
                     raise OOD("loop value of debatable type (bool <- str)")
+                elif v.k == "i" and v.v in (0, 1) and self.convert_debatable:
+                    self.feat("loop-debatable")
+                    vals.append(V("b", bool(v.v)))
                 else:
                     raise OOD("loop value of debatable type (bool <- %s)" % v.k)
             elif want == "s":
@@ -1187,11 +1202,12 @@ def _has_func(t):
     return False
 
 
-def run(text, grammar, fs=None, filename=None, depth=0, tokens=None, check=True, allow_func=False):
+def run(text, grammar, fs=None, filename=None, depth=0, tokens=None, check=True, allow_func=False, convert_debatable=False):
     """Interpret a script.  See the module docstring for the outcomes."""
     toks = tokens if tokens is not None else grammar.tokenize(text)
     meta, items = parse_tokens(toks)
     it = Interp(grammar, fs=fs, filename=filename, depth=depth)
+    it.convert_debatable = convert_debatable
     it.run_meta(meta)
     it.run_items(items)
     p = it.prog
